@@ -90,7 +90,8 @@ class ItemsMonitor(Monitor):
             return
         if a["item"] == "EMPTY":
             rec = self._rec(ev["post"]["state"], key)
-            if not rec or rec.get("status") != "succeeded":
+            has_retry = bool(rec and "retry" in rec)
+            if not rec or not (rec.get("status") == "succeeded" or (rec.get("status") == "retrying" and has_retry)):
                 run.viol("C12", "empty_list_not_completed", "with-items task %s over an empty list is %r after its "
                          "completion report" % (key[0], rec.get("status") if rec else None), subject=key[0])
             t["closed"] = True
